@@ -138,6 +138,8 @@ TR_LEN = {"module": "Trace_Len", "cfg": "Trace_Len.cfg", "family": "len", "args"
 
 TR_MM = {"module": "Trace_MinMax", "cfg": "Trace_MinMax.cfg", "family": "minmax", "args": {"n": ("500", "5000")}, "timeout": 1800}
 
+HIST_BIG = {"cmd": "direct", "family": "histbig", "args": {"reps": ("200", "3000")}}
+
 GEN_INGEST = {"module": "Gen_Ingest", "cfg": "Gen_Ingest.cfg", "overrides": {"MaxLen": ("4", "5"), "MaxSteps": ("4", "5")}, "family": "ingest"}
 
 PROPS = {
@@ -239,7 +241,7 @@ PROPS = {
         "title": "variances are never negative and means stay within the data range",
         "mc": [MC_HM, MC_W, MC_C, MC_SEQ, MC_MERGE],
         "replay": [GEN_INGEST, gen_h("hist", 2, depth=("3", "4")), gen_h("hist", 3), gen_pair("Weighted", "tree", "E0:W0,E6:W1,E7:W2,E8:W0,E9:W1,EM1:W0", maxlen=("3", "4")), gen_pair("Weighted", "seq", "EM1:W0,EM1:W2", maxlen=("4", "5")), gen_pair("Covariance", "tree", "E6:E7,E8:E9,E9:E6,EM1:EM1", maxlen=("3", "4")), gen_seq(ALLM, E09 + ",EM1"), gen_tree(ALLM, "E0,E4,E6,E7,E8,E9,EM1"), gen_hist(ALLM, "E6,E7,E8,E9,EM1")],
-        "direct": [long_job("Mean,Variance,Skewness,Kurtosis,Moments4,M6,M10", "E0,E4,E6,E7,E8,E9,E10")],
+        "direct": [long_job("Mean,Variance,Skewness,Kurtosis,Moments4,M6,M10", "E0,E4,E6,E7,E8,E9,E10"), HIST_BIG],
         "apalache": [{"module": "Ind_Variance", "skip": (True, False)}, {"module": "Ind_EffLen", "skip": (True, False)}],
         "trace": [tr_h(3)],
         "rule": "all behaviours of C01/C02 replayed under embeddings without any conditioning bound (one-ulp spreads at 2^52, "
@@ -387,6 +389,7 @@ PROPS = {
         "mc": [MC_HM],
         "replay": H_HIST,
         "trace": [tr_h(2), tr_h(3), tr_h(10)],
+        "direct": [HIST_BIG],
         "rule": "every history of build/add/merge/+=/*=/reset/clone/checkpoint over two slots and 4-6 edge vectors (equal, numerically "
                 "equal with different zero signs, different, infinite, with empty bins) to the depth bound: counts exact, panics "
                 "exactly on different edges without mutation, merge == += == reversed merge, iteration order, all views against "
